@@ -162,6 +162,7 @@ def step (st : St) (line : String) : St × String :=
   | ["snap"] => let r := snap st.node; ({ st with node := r.1 }, showRes r.2)
   | ["storefail"] => ({ st with node := reinit st.cfg st.node }, "ok")
   | ["revertfail"] => ({ st with node := reinit st.cfg st.node }, "ok")
+  | ["restartcore"] => let r := restartCore st.cfg st.node; ({ st with node := r.1 }, showRes r.2)
   | ["restartfault"] => ({ st with node := Juno.C09.step st.cfg st.node .restartFault }, "ok")
   | ["restartcrash", k] =>
     match hexToNat? k with
